@@ -687,6 +687,32 @@ theorem C10_inactive_no_loop (o : Bool) (s : St) (h : Reach o s) (hst : s.st = .
   simp only [not_or, LPc.alive, ne_eq, Decidable.not_not] at this
   exact ⟨this.1, C10_inactive_not_writing o s h this.1⟩
 
+/-! ### Blocks and channel counts (ROACH source of several devices: known finding)
+
+The life-cycle automaton does not count channels.  What `ProcessSegments` demands of a delivered block — as many
+segments as the source has processors — is stated here on its own: a source that sizes itself for the SUM of its
+devices' channels while every device delivers blocks with its OWN channels only satisfies it exactly when there is a
+single device. -/
+
+/-- `ProcessSegments` panics unless the block has one segment per processor -/
+def blockFits (sourceChannels blockSegments : Nat) : Bool := sourceChannels == blockSegments
+
+/-- the ROACH source: `Sample` sums the devices' channels, `StartRun` forwards each device's block unmerged -/
+def roachBlocksFit (devs : List Nat) : Bool := devs.all fun n => blockFits devs.sum n
+
+/-- full statement: every block a started ROACH source delivers is one the core loop can process -/
+def C10_roach_blocks_fit_full : Prop := ∀ devs : List Nat, devs ≠ [] → (∀ n ∈ devs, n > 0) → roachBlocksFit devs = true
+
+/-- it holds for a single device … -/
+theorem C10_roach_blocks_fit_partial (n : Nat) : roachBlocksFit [n] = true := by
+  simp [roachBlocksFit, blockFits]
+
+/-- … and fails for two (2 + 3 channels: the first block has 2 segments, the source 5 processors → panic) -/
+theorem C10_roach_blocks_fit_counterexample : ¬ C10_roach_blocks_fit_full := by
+  intro h
+  have := h [2, 3] (by simp) (by intro n hn; simp at hn; rcases hn with rfl | rfl <;> omega)
+  simp [roachBlocksFit, blockFits] at this
+
 /-! ### A valid Configure clears a remembered configuration error -/
 
 /-- **C10_valid_configure_clears_error**: whatever requests came before (any number of rejected configurations,
